@@ -28,6 +28,7 @@ type Expr struct {
 	Op    string  `json:"op"` // = <> < <= > >= exists not_exists begins contains between in and or not
 	Path  *Path   `json:"path,omitempty"`
 	Vals  []AV    `json:"vals,omitempty"`
+	RP    []*Path `json:"rp,omitempty"` // operand i is the attribute RP[i] instead of the value Vals[i] (when non-nil)
 	Args  []*Expr `json:"args,omitempty"`
 	Paren bool    `json:"paren,omitempty"`
 }
@@ -88,10 +89,26 @@ func (e *Expr) Render(b *Binder) string {
 	return s
 }
 
+// operand renders right-hand operand i: a value placeholder or an attribute path.
+func (e *Expr) operand(b *Binder, i int) string {
+	if i < len(e.RP) && e.RP[i] != nil {
+		return b.path(*e.RP[i])
+	}
+	return b.val(e.Vals[i])
+}
+
+// operandValue resolves right-hand operand i on an item.
+func (e *Expr) operandValue(it Item, i int) (AV, bool) {
+	if i < len(e.RP) && e.RP[i] != nil {
+		return Lookup(it, *e.RP[i])
+	}
+	return e.Vals[i], true
+}
+
 func (e *Expr) render(b *Binder) string {
 	switch e.Op {
 	case "=", "<>", "<", "<=", ">", ">=":
-		return b.path(*e.Path) + " " + e.Op + " " + b.val(e.Vals[0])
+		return b.path(*e.Path) + " " + e.Op + " " + e.operand(b, 0)
 	case "exists":
 		return "attribute_exists(" + b.path(*e.Path) + ")"
 	case "not_exists":
@@ -101,11 +118,11 @@ func (e *Expr) render(b *Binder) string {
 	case "contains":
 		return "contains(" + b.path(*e.Path) + ", " + b.val(e.Vals[0]) + ")"
 	case "between":
-		return b.path(*e.Path) + " BETWEEN " + b.val(e.Vals[0]) + " AND " + b.val(e.Vals[1])
+		return b.path(*e.Path) + " BETWEEN " + e.operand(b, 0) + " AND " + e.operand(b, 1)
 	case "in":
 		parts := make([]string, len(e.Vals))
-		for i, v := range e.Vals {
-			parts[i] = b.val(v)
+		for i := range e.Vals {
+			parts[i] = e.operand(b, i)
 		}
 		return b.path(*e.Path) + " IN (" + strings.Join(parts, ", ") + ")"
 	case "and":
@@ -169,13 +186,22 @@ func (e *Expr) Eval(it Item) bool {
 	if !ok {
 		return e.Op == "<>"
 	}
+	ops := make([]AV, len(e.Vals))
+	for i := range e.Vals {
+		o, ok := e.operandValue(it, i)
+		if !ok {
+			// an operand attribute that is absent: the comparison is false (<> true)
+			return e.Op == "<>"
+		}
+		ops[i] = o
+	}
 	switch e.Op {
 	case "=":
-		return v.Equal(e.Vals[0])
+		return v.Equal(ops[0])
 	case "<>":
-		return !v.Equal(e.Vals[0])
+		return !v.Equal(ops[0])
 	case "<", "<=", ">", ">=":
-		c, ok := CmpScalar(v, e.Vals[0])
+		c, ok := CmpScalar(v, ops[0])
 		if !ok {
 			return false
 		}
@@ -189,11 +215,11 @@ func (e *Expr) Eval(it Item) bool {
 		}
 		return c >= 0
 	case "between":
-		c1, ok1 := CmpScalar(v, e.Vals[0])
-		c2, ok2 := CmpScalar(v, e.Vals[1])
+		c1, ok1 := CmpScalar(v, ops[0])
+		c2, ok2 := CmpScalar(v, ops[1])
 		return ok1 && ok2 && c1 >= 0 && c2 <= 0
 	case "in":
-		for _, x := range e.Vals {
+		for _, x := range ops {
 			if v.Equal(x) {
 				return true
 			}
@@ -250,6 +276,11 @@ func (e *Expr) Attrs(into map[string]bool) {
 	}
 	if e.Path != nil {
 		into[e.Path.Attr] = true
+	}
+	for _, p := range e.RP {
+		if p != nil {
+			into[p.Attr] = true
+		}
 	}
 	for _, a := range e.Args {
 		a.Attrs(into)
